@@ -48,6 +48,10 @@ CLAIMED["C14"] = ("model_checking", "5 C14",
     "The real urwid.signals machinery runs histories whose operation kinds and targets are solver-chosen selectors, with handlers that disconnect, connect and re-emit during an emit; "
     "the statement's obligations are checked on every feasible history and the coverage certificate shows the selector space was exhausted.  No arithmetic content (said plainly).",
     "z3 trusted for path feasibility/coverage only; 3 handlers, histories of 3 (quick) / 4 (thorough) operations.")
+CLAIMED["C09"] = ("model_checking", "5 C09",
+    "Each container/decoration class is executed around an abstract leaf implementing the cursor protocol, for unbounded symbolic sizes, options and event cells under the "
+    "fit precondition; the solver shows reported cursor == rendered cursor, mouse events on the leaf's cells reach it with translated coordinates, and cursor moves translate likewise.",
+    "z3 trusted; abstract cursor leaf (contract: cursor inside its own area); the leaf's position is read off the rendered cursor.")
 NOT_YET = {}
 TECH = "bounded symbolic execution of the real urwid code (AST-lifted import of /repo) with z3 deciding every path obligation; counterexamples replayed on the un-lifted code"
 def main():
